@@ -25,6 +25,9 @@ func oddDecls() []VarDecl {
 		{Ty: "monetary", Name: "mb", Origin: OrMeta, OAcc: Acc("cfg"), OKey: "mon"},
 		{Ty: "portion", Name: "pb", Origin: OrMeta, OAcc: Acc("cfg"), OKey: "por"},
 		{Ty: "string", Name: "bg", Origin: OrBalance, OAcc: Acc("a"), OAsset: Asset("X")}, // ill-typed on purpose
+		{Ty: "number", Name: "nb", Origin: OrMeta, OAcc: Acc("cfg"), OKey: "num"},
+		{Ty: "string", Name: "sb", Origin: OrMeta, OAcc: Acc("cfg"), OKey: "str"},
+		{Ty: "asset", Name: "ab2", Origin: OrMeta, OAcc: Acc("cfg"), OKey: "ass"},
 	}
 }
 
@@ -43,6 +46,7 @@ func oddBodies() [][]*Stmt {
 		{sendSimple(Var("ma"), SrcAcc(Var("ab")), DstAcc(Var("ad")))},
 		{{K: StSetTxMeta, Key: "k", Val: Var("pa")}, {K: StSetAccMeta, Acc: Var("ac"), Key: "k", Val: Var("bf")}, {K: StPrint, Val: Var("sa")}},
 		{sendSimple(MonBig(Var("as"), big.NewInt(3)), SrcOv(Acc("a"), Var("bc")), c), {K: StPrint, Val: Add(Var("na"), Num(1))}},
+		{{K: StPrint, Val: Add(Var("nb"), Num(1))}, {K: StSetTxMeta, Key: "s", Val: Var("sb")}, sendSimple(MonBig(Var("ab2"), big.NewInt(1)), SrcAcc(Acc("world")), c)},
 		{sendSimple(Var("mb"), SrcAcc(Acc("a")), &Dest{K: DAllot, Portions: []Portion{{K: PVar, S: "pb"}, {K: PRemaining}}, Items: []KD{To(c), Kept()}})},
 	}
 }
@@ -173,6 +177,13 @@ var badValues = map[string][]string{
 	"string":   {"", "\x00", "é\"'"},
 }
 
+// texts that mean something to a JSON decoder: variable values and stored metadata pass through one on their way in
+func init() {
+	for ty := range badValues {
+		badValues[ty] = append(badValues[ty], "null", "true", "[]", "{}", "\"3\"", " ", "0x10", "NaN")
+	}
+}
+
 var goodValues = map[string]string{"account": "a", "asset": "X", "monetary": "X 7", "portion": "1/2", "number": "3", "string": "hi"}
 
 // OddInputs: valid / missing / extraneous / ill-typed variable maps x three stores.
@@ -223,11 +234,13 @@ func OddInputs(p *Program) []*Input {
 	stores := []*Input{
 		{},
 		{Balances: map[string]map[string]string{"a": {"X": "100", "Y/2": "5"}, "b": {"X": "-5"}, "c": {"X": "1"}},
-			Meta: map[string]map[string]string{"cfg": {"k": "a", "k2": "b", "mon": "X 3", "por": "1/3"}, "a": {"k2": "b", "k": "c"}, "b": {"k2": "a"}}},
+			Meta: map[string]map[string]string{"cfg": {"k": "a", "k2": "b", "mon": "X 3", "por": "1/3", "num": "4", "str": "hello", "ass": "X"}, "a": {"k2": "b", "k": "c"}, "b": {"k2": "a"}}},
 		{Balances: map[string]map[string]string{"a": {"X": "-5", "Y/2": "-1"}, "b": {"X": "1180591620717411303424"}},
-			Meta: map[string]map[string]string{"cfg": {"k": "!!", "mon": "X -3", "por": "3/2"}}},
+			Meta: map[string]map[string]string{"cfg": {"k": "!!", "mon": "X -3", "por": "3/2", "num": "-1", "str": "", "ass": "x"}}},
 		{Balances: map[string]map[string]string{"a": {"X": "3"}},
 			Meta: map[string]map[string]string{"cfg": {"k": "world", "mon": "Y/2 3", "por": "100%"}, "world": {"k2": "world"}}},
+		{Balances: map[string]map[string]string{"a": {"X": "3"}},
+			Meta: map[string]map[string]string{"cfg": {"k": "null", "k2": "null", "mon": "null", "por": "null", "num": "null", "str": "null", "ass": "null"}, "a": {"k": "null", "k2": "[]"}}},
 	}
 	var out []*Input
 	for _, m := range maps {
